@@ -3,9 +3,10 @@ import fam_expander
 import fam_urls
 import fam_small
 import fam_state
+import fam_codec
 
 CHECKS = {}
 REPLAY = {}
-for m in (fam_expander, fam_urls, fam_small, fam_state):
+for m in (fam_expander, fam_urls, fam_small, fam_state, fam_codec):
     CHECKS.update(m.CHECKS)
     REPLAY.update(getattr(m, 'REPLAY', {}))
